@@ -471,6 +471,9 @@ def parse_instr(mod, ln):
         if isinstance(rt, FuncT): rt = rt.ret
         elif isinstance(rt, PtrT) and isinstance(rt.to, FuncT) and p.peek()[1] != '(' and False: pass
         callee = p.next()
+        if callee[0] == 'word' and callee[1] in ('bitcast', 'addrspacecast'):
+            p.expect('('); t2 = p.ptype(); inner = p.next(); p.expect('to'); t3 = p.ptype(); p.expect(')')
+            callee = inner
         callee = ('global', callee[1]) if callee[0] == 'glob' else ('local', callee[1])
         p.expect('(')
         args = []
